@@ -443,6 +443,9 @@ func inChild() bool {
 	return ok
 }
 
+// InChild: is the calling goroutine one that a rewritten go statement started?
+func InChild() bool { return inChild() }
+
 // Go runs fn in the goroutine a rewritten go statement has just started.
 func Go(fn func()) {
 	id := goid()
@@ -451,9 +454,17 @@ func Go(fn func()) {
 	defer func() {
 		live.Add(-1)
 		children.Delete(id)
+		if r := recover(); r != nil {
+			// nobody can recover a panic on this goroutine: in production the process dies here.
+			// The simulation notes it and goes on, so that the check can report it.
+			ChildPanics.Add(1)
+		}
 	}()
 	fn()
 }
+
+// ChildPanics counts panics that ended a goroutine the library started itself.
+var ChildPanics atomic.Int32
 
 // LiveChildren reports how many library-started goroutines are running now.
 func LiveChildren() int { return int(live.Load()) }
